@@ -15,7 +15,8 @@ import sys
 sys.path.insert(0, os.path.join(os.path.dirname(os.path.abspath(__file__)), ".."))
 from capture import canon_op, canon_pops, pops_sexp  # noqa: E402
 from core import A, program_sexp, run_driver, run_impl  # noqa: E402
-from framework import Run  # noqa: E402
+from framework import Run
+from gen_ssb import JUMP_IDX  # noqa: E402
 from gen_prog import Cfg, Gen, prog_size  # noqa: E402
 from lang import print_prog  # noqa: E402
 import shapes  # noqa: E402
@@ -59,6 +60,12 @@ def main() -> None:
         small = r.random() < 0.6
         progs.append((f"random:{run.seed}:{i}", Gen(r, Cfg(max_depth=2 if small else 3, max_block=2 if small else 4,
                                                         max_routines=3, terminator_prob=0.5)).program()))
+    # programs with macros: several expansions of one macro, nested calls, macros with and without parameters
+    from gen_prog import MacroGen
+    for i in range(300 if q else 4000):
+        r = random.Random(f"C03-macro-{run.seed}-{i}")
+        g = MacroGen(r, Cfg(max_depth=2, max_block=2, max_routines=2, loops=r.random() < 0.5, terminator_prob=0.6))
+        progs.append((f"macro:{run.seed}:{i}", g.macro_program(1)["flat"]))
     texts = [print_prog(p) for _, p in progs]
     results = run_impl([("capture:compile_capture", t) for t in texts])
     idx = [i for i, r in enumerate(results) if "strip_in" in r.get("cap", {})]
@@ -78,6 +85,13 @@ def main() -> None:
             bad.append((i, "result is not closed (duplicate offset, dangling or missing jump target, or pseudo op)"))
         elif not tables_len_ok(results[i]):
             bad.append((i, "routine info / coroutine name / op tables differ in length"))
+        else:
+            # the target is the last parameter AND stands where the opcode table says the machine reads it
+            for op in (o for rt in results[i]["ops"] for o in rt):
+                if op["code"] in JUMP_IDX and len(op["params"]) != JUMP_IDX[op["code"]] + 1:
+                    bad.append((i, f"{op['code']} at offset {op['off']} has {len(op['params'])} parameters; its target "
+                                   f"is not the last parameter at index {JUMP_IDX[op['code']]}"))
+                    break
         run.count("closed:" + str(bool(c.get("closed"))))
     # SsbScript path: the same programs' compiled ops printed as SsbScript and compiled by the SsbScript compiler
     sub = ok_idx[: (300 if q else 3000)]
